@@ -125,6 +125,9 @@ def run_default(ctx: C.Ctx):
                 if engine == 'v1':
                     if not isinstance(e, JSONWizardError):
                         ctx.fail('err:not-library-error', case, f'v1 load raised a bare {type(e).__name__}: {str(e)[:200]}', detail=src)
+                    elif getattr(e, 'class_name', None) is None and bad is not None:
+                        # (a JSON null document is reported as MissingData without a class: the model has it so, too)
+                        ctx.fail('err:no-class', case, f'{type(e).__name__} of a v1 load names no class (class_name is None): {str(e)[:200]}', detail=src)
                 exp = expected_attr(ty, junk_path) if junk_path else None
                 if exp is not None and isinstance(e, ParseError) and type(e).__name__ == 'ParseError':
                     if (e.class_name, e.field_name) != exp:
